@@ -737,6 +737,17 @@ func (c *Ctx) boundLeaves(v ssa.Value) []leaf {
 					out = append(out, leaf{v, "trusted", nil})
 					return
 				}
+				// a field that is only set while its object is constructed (parameter structs): the bound is what was stored
+				if fa, ok := x.X.(*ssa.FieldAddr); ok {
+					if t, f, _, ok := eng.FieldOf(fa); ok {
+						if vals, ok := p.ConstructOnly(t, f); ok {
+							for _, sv := range vals {
+								walk(sv)
+							}
+							return
+						}
+					}
+				}
 			}
 			out = append(out, leaf{v, "other", nil})
 		default:
@@ -1362,10 +1373,20 @@ func nonNegDischarge(c *Ctx, call *ssa.Call) (bool, string) {
 				if !isB || p.Resolve(bo.X) != src {
 					continue
 				}
-				if n, isC := eng.ConstInt(bo.Y); isC && n >= 0 && (bo.Op == token.GTR || bo.Op == token.GEQ) {
-					if eng.Cut(f, call.Block(), eng.EdgeSet{eng.Edge{From: b, To: b.Succs[0]}: true}) {
-						ok = true
-					}
+				n, isC := eng.ConstInt(bo.Y)
+				if !isC {
+					continue
+				}
+				// the edge on which src >= 0 is known: true edge of (src > n>=0 | src >= n>=0), false edge of (src < n>=0 ... i.e. src >= n) / (src <= n>=-1 ... i.e. src > n)
+				var good *eng.Edge
+				switch {
+				case (bo.Op == token.GTR || bo.Op == token.GEQ) && n >= 0:
+					good = &eng.Edge{From: b, To: b.Succs[0]}
+				case bo.Op == token.LSS && n >= 0, bo.Op == token.LEQ && n >= -1:
+					good = &eng.Edge{From: b, To: b.Succs[1]}
+				}
+				if good != nil && eng.Cut(f, call.Block(), eng.EdgeSet{*good: true}) {
+					ok = true
 				}
 			}
 			if !ok {
